@@ -1061,8 +1061,15 @@ func TestC04HostileChild(t *testing.T) {
 		lf, _ = os.OpenFile(lastPath, os.O_CREATE|os.O_RDWR, 0644)
 	}
 	res := &childResult{Type: s.name, Classes: map[string]int{}}
+	flush := func() {
+		b, _ := json.Marshal(res)
+		fmt.Printf("\nC04R %s\n", b)
+	}
 	for i := start; i < len(cases); i++ {
 		c := cases[i]
+		if res.Cases > 0 && res.Cases%1000 == 0 {
+			flush() // cumulative; the parent keeps the last line, so work before a fatal error still counts
+		}
 		if lf != nil {
 			rec := []byte(fmt.Sprintf("%d %s %s\n", i, c.class, kit.Hex(c.data)))
 			lf.WriteAt(rec, 0)
@@ -1119,6 +1126,5 @@ func TestC04HostileChild(t *testing.T) {
 		res.Stable++
 	}
 	res.Next = len(cases)
-	b, _ := json.Marshal(res)
-	fmt.Printf("\nC04R %s\n", b)
+	flush()
 }
